@@ -343,6 +343,25 @@ func genTree(r *Rng, o treeOpts) *GenTree {
 			docs[f] = append(docs[f], string(y))
 			t.Resources = append(t.Resources, &GenRes{Tracer: tracer, Obj: ob, Layer: li})
 		}
+		// hand-written documents: YAML anchors / aliases / merge keys, and keep-chomped block scalars that end a
+		// non-final document of a multi-document file (their typed value is what a YAML 1.1 reader sees)
+		if nres > 0 && r.Chance(35) {
+			for _, raw := range rawDocs(r, &tr) {
+				var ob obj
+				if err := syaml.Unmarshal([]byte(raw.text), &ob); err != nil {
+					continue
+				}
+				id := fmt.Sprint(ob["kind"]) + "/" + fmt.Sprint(ob["metadata"].(obj)["name"])
+				if usedIds[id] {
+					continue
+				}
+				usedIds[id] = true
+				// put it FIRST in a file so that a keep-chomped scalar is followed by a separator
+				f := r.Intn(nfiles)
+				docs[f] = append([]string{raw.text}, docs[f]...)
+				t.Resources = append(t.Resources, &GenRes{Tracer: raw.tracer, Obj: ob, Layer: li})
+			}
+		}
 		for f := 0; f < nfiles; f++ {
 			if len(docs[f]) == 0 {
 				continue
@@ -509,3 +528,45 @@ func advStringNoNL(r *Rng) string {
 
 // chain returns the layers that apply to a resource defined in layer li, innermost first.
 func (t *GenTree) chain(li int) []*GenLayer { return t.Layers[li:] }
+
+type rawDoc struct{ text, tracer string }
+
+// rawDocs returns 1-2 documents written as YAML text (not marshalled from objects).
+func rawDocs(r *Rng, tr *int) []rawDoc {
+	out := []rawDoc{}
+	next := func() string { t := fmt.Sprintf("t%d", *tr); *tr++; return t }
+	if r.Bool() {
+		t := next()
+		n := r.Intn(3)
+		out = append(out, rawDoc{tracer: t, text: fmt.Sprintf(`apiVersion: example.com/v1
+kind: Widget
+metadata: &ident
+  name: anch%d
+  annotations:
+    tracer: %s
+spec:
+  owner:
+    <<: *ident
+    role: %q
+  tmpl: &ctr
+    name: c
+    image: %s
+  containers:
+  - <<: *ctr
+  - name: d
+    image: %s
+  fallback: *ctr
+  words: &w [a, b]
+  again: *w
+`, n, t, r.Pick([]string{"admin", "yes", "012"}), r.Pick(imageNames), r.Pick(imageNames))})
+	}
+	if r.Bool() {
+		t := next()
+		n := r.Intn(3)
+		blanks := strings.Repeat("\n", 1+r.Intn(3))
+		style := r.Pick([]string{"|+", "|+", "|+", "|", "|-"}) // literal styles only: folded keep-chomped scalars are read differently by go-yaml v2 and v3
+		out = append(out, rawDoc{tracer: t, text: fmt.Sprintf("apiVersion: v1\nkind: ConfigMap\nmetadata:\n  name: motd%d\n  annotations:\n    tracer: %s\ndata:\n  a: plain\n  motd: %s\n    welcome\n    to %s%s",
+			n, t, style, r.Pick([]string{"yes", "x: y", "#1"}), "\n"+blanks)})
+	}
+	return out
+}
